@@ -940,3 +940,43 @@ Example doc22_split :
     get "dns" b = Some (VObj [("upstream_mode", VMode MParallel)]) /\
     get "dns" (norm_obj b) = Some (VObj [("upstream_mode", VStr "parallel")]).
 Proof. do 3 eexists. repeat split; vm_compute; reflexivity. Qed.
+
+(** ** The unconditional reading is false
+
+    "The result never depends on the path", with a failing one run included:
+    refuted by a whole-valued float at a key a step reads as an int.  In
+    memory the step rejects the float64; a file written at an earlier version
+    holds [2] for [2.0] (yaml prints it so), which reads back as an int. *)
+
+Definition split_run (O : oracles) (top : option obj) (k t : Z) : outcome :=
+  match migrate O top k with
+  | ONew b => migrate O (Some (norm_obj b)) t
+  | o => o
+  end.
+
+Definition same_result (o1 o2 : outcome) : Prop :=
+  match o1, o2 with
+  | ONew a, ONew c => norm_obj a = norm_obj c
+  | OErr, OErr | OSame, OSame | OPanic, OPanic => True
+  | _, _ => False
+  end.
+
+Definition path_independent_unconditional_statement : Prop :=
+  forall O top t k, version_of (input_map top) < k < t ->
+    same_result (migrate O top t) (split_run O top k t).
+
+Definition float_doc : obj := [("schema_version", VInt 9); ("rlimit_nofile", VFloat (Some 2) "2")].
+
+Lemma path_independent_unconditional_refuted :
+  exists O top t k, version_of (input_map top) < k < t /\
+    migrate O top t = OErr /\ exists c, split_run O top k t = ONew c.
+Proof.
+  exists oracles0, (Some float_doc), 29, 10. split; [vm_compute; split; reflexivity|].
+  split; [vm_compute; reflexivity|]. eexists. vm_compute. reflexivity.
+Qed.
+
+Lemma path_independent_unconditional_false : ~ path_independent_unconditional_statement.
+Proof.
+  intros H. destruct path_independent_unconditional_refuted as (O & top & t & k & R & E & c & S).
+  specialize (H O top t k R). rewrite E, S in H. exact H.
+Qed.
